@@ -100,7 +100,11 @@ pub fn compare(
     if r.state != o.state {
         return ctx.violate(inv, &format!("{inv}:{what}:state"), format!("tx {tx}: {what} replica ended with {} but the reference with {}", o.state, r.state));
     }
-    if r.receipts != o.receipts || receipts_bytes(r) != receipts_bytes(o) {
+    // A transaction that ended in an error (rejected at initialisation, storage error) returns
+    // no state transition: whatever `vm.receipts()` still holds then (e.g. the previous
+    // transaction's receipts on a reused instance whose init failed early) is not a result.
+    let errored = r.is_err || o.is_err;
+    if !errored && (r.receipts != o.receipts || receipts_bytes(r) != receipts_bytes(o)) {
         let n = r.receipts.iter().zip(o.receipts.iter()).take_while(|(a, b)| a == b).count();
         return ctx.violate(
             inv,
